@@ -25,7 +25,9 @@ P = dict(
                 "full-must-return-null case, stack push/emplace/pop/top/swap/compare) is applied with every argument tuple (odometer enumeration); plus seeded "
                 "random 40-step (one in eight: 320-step) histories at capacities 16, 254, 255, 256 (size-type boundary) hovering at empty/full. After every step size, empty/full, "
                 "capacity, the element sequence, returned iterator offsets/references/counts are compared; trivial (int, pod) and non-trivial "
-                "(address-registered copy+move and move-only) element types select both storage implementations; all under ASan+UBSan."),
+                "(address-registered copy+move and move-only, damaged by self-move-assignment) element types select both storage implementations; an element "
+                "type with an initializer_list constructor tells () from {} construction; zero-argument emplace forms; ranges and values of other types than T; "
+                "units C01_fp_*: every ordered pair of sequences <= 3 over {+0,-0,1,NaN,-NaN,inf} under the six relations and value-based erasure; all under ASan+UBSan."),
     level_note="trusts libstdc++ std::vector as oracle; iterator-range overloads are driven with pointers only (tetl static_asserts pointer iterators); bounded by the enumerated scope and the random sample",
     technique="runtime differential monitoring vs std::vector with a lifetime registry, under ASan+UBSan (exhaustive small scope + seeded random histories)",
     design_ref="DESIGN.md section 4 C01",
@@ -38,6 +40,11 @@ P = dict(
         u(2, "a", "0,1,2,3", nocc=True, nx=True), u(2, "b", "16,254,255,256"), u(2, "c", "4", quick=False),
         u(3, "a", "0,1,2,3", nx=True), u(3, "b", "4,16,255,256", quick=False),
         u(4, "a", "0,1,2,3"), u(4, "b", "4,16,256", quick=False),
+        # floating-point elements (+0/-0, NaN): the six relations and value-based erasure must go through the elements' own == and <
+        Unit("C01_fp_double", "harness/C01_fp.cpp", defs=["-DVF_FP=double", '-DVF_FP_NAME="double"'],
+             flavours={"quick": ["asan-cc", "plain-cc"], "thorough": ["asan-cc", "plain-cc", "O0-nocc"]}, shards={"quick": 2, "thorough": 4}),
+        Unit("C01_fp_float", "harness/C01_fp.cpp", defs=["-DVF_FP=float", '-DVF_FP_NAME="float"'],
+             flavours={"quick": ["plain-cc"], "thorough": ["asan-cc", "plain-cc"]}, shards={"quick": 2, "thorough": 4}),
     ],
     floor={"quick": 100000, "thorough": 1000000},
     assumptions=["libstdc++ 12 std::vector is a correct reference", "gcc 12 ASan/UBSan see accesses outside exact-size heap blocks; accesses inside the vector object are only visible through the model or the lifetime registry"],
